@@ -9,8 +9,11 @@ k=1  two real endpoints: arbitrary fault prefix, then a fault-free suffix (sim/s
      oracle = the property: quiescence, everything sent on reliable channels delivered,
      bufferedAmount 0, flight size 0, still connected.
 """
+import os
+import random
 import types
 
+from harness import framework as F
 from harness.framework import Check
 from harness.sim import scenario as SC
 from harness.sim import sctp as M
@@ -78,6 +81,53 @@ def gen_tx_case(rng):
     return {"k": 0, "tsn": tsn0, "rwnd": rng.choice([1048576, 1048576, 4000, 0]), "ins": ins}
 
 
+def gen_rto_case(rng):
+    """round-trip measurements handed to _update_rto: realistic, degenerate and hostile floats (hex strings)"""
+    rs = []
+    for _ in range(rng.randrange(1, 14)):
+        k = rng.random()
+        if k < 0.55:
+            r = rng.choice([0.0005, 0.02, 0.15, 1.0, 3.0]) * rng.random() * rng.choice([1, 1, 10])
+        elif k < 0.7:
+            r = rng.choice([0.0, 1.0, 60.0, 59.999999999999993, 60.000000000000007, 0.25, 15.0, 7.5, 1e-320, 5e-324])
+        elif k < 0.8:
+            r = -rng.random() * rng.choice([1e-3, 1.0, 100.0])
+        elif k < 0.9:
+            r = rng.choice([1e3, 1e17, 1e300, 1.7976931348623157e308, -1.7976931348623157e308])
+        else:
+            r = rng.choice([float("inf"), float("-inf"), float("nan")])
+        rs.append(float(r).hex())
+    return {"k": 2, "rs": rs}
+
+
+def run_rto(case):
+    return M.run(_run_rto(case))
+
+
+async def _run_rto(case):
+    """the real _update_rto; (srtt, rttvar, rto) after every measurement as hex strings"""
+    from aiortc import rtcsctptransport as S
+    sim = M.Sim([1, 2, 3, 4])
+    sim._patch()
+    try:
+        t = S.RTCSctpTransport(M._Dtls(sim, 1), port=5000)
+        out = [[float(t._rto).hex()]]
+        for r in case["rs"]:
+            t._update_rto(float.fromhex(r))
+            out.append([float(t._srtt).hex(), float(t._rttvar).hex(), float(t._rto).hex()])
+        return out
+    finally:
+        sim._unpatch()
+
+
+def _coq_float(h):
+    if h == "nan":
+        return "nan"
+    if h in ("inf", "-inf"):
+        return "infinity" if h == "inf" else "neg_infinity"
+    return f"(opp {h[1:]})" if h.startswith("-") else h
+
+
 class C02(Check):
     prop = "C02"
     props_file = "Props/C02.v"
@@ -87,16 +137,65 @@ class C02(Check):
     case_timeout = 60.0
     level_note = ("Theorems are about Model/SctpTx.v (sender: flight size, congestion window, queues, T3 flag) for "
                   "all input histories; tie = differential run against a real RTCSctpTransport whose _send_chunk, "
-                  "timers and ensure_future are recorded. RTO arithmetic (floats) and real time are not modelled: "
-                  "timer expiry is an input, so 'bounded time' is a bound in healing rounds, observed on the "
-                  "two-endpoint simulator, not proved.")
+                  "timers and ensure_future are recorded. The RTO arithmetic is Model/Rto.v (primitive floats), compared "
+                  "bit for bit with _update_rto inside Coq on every run; its range [1 s, 60 s] is theorem 7. When timers "
+                  "fire is an input, so 'bounded time' beyond the timer range is a bound in healing rounds, observed on "
+                  "the two-endpoint simulator, not proved.")
     rule = ("k=0: 4-45 inputs: messages of 1..11 fragments on 3 streams (reliable, rexmit-limited, lifetime-limited), "
             "SACKs with cumulative point anywhere around the outstanding range and 0-4 gap blocks (also inverted / "
-            "huge), T3 expiries, deferred transmit tasks, TSN origins at wrap points, peer rwnd 0..1 MiB; k=1: two "
+            "huge), T3 expiries, deferred transmit tasks, TSN origins at wrap points, peer rwnd 0..1 MiB; k=2: 1-13 round-trip "
+            "measurements (realistic, zero, negative, denormal, huge, infinite, NaN) given to _update_rto; k=1: two "
             "real endpoints, fault prefix + fault-free suffix; distinct by (case, outputs); non-trivial = at least "
             "one retransmission or fast-recovery entry or T3 expiry with outstanding data")
 
+    # ---------------------------------------------------------------- the float model of _update_rto, run inside Coq
+    def gen_validation(self):
+        """Model/Rto.v (primitive floats) against the real _update_rto, bit for bit: the expected triples are written as
+        hexadecimal float literals into a Coq file and compared there (vm_compute) with what the model computes."""
+        rng = random.Random(4242)
+        n = 2500 if os.environ.get("VERIF_TIER") == "thorough" else 400
+        cases = [gen_rto_case(rng) for _ in range(n)]
+        lines = ["From Coq Require Import PrimFloat FloatOps SpecFloat ZArith List Bool.",
+                 "From AV Require Import Model.Rto.", "Import ListNotations.", "Local Open Scope float_scope.",
+                 "Definition feq (a b : float) : bool := match Prim2SF a, Prim2SF b with",
+                 "  | S754_zero s1, S754_zero s2 => Bool.eqb s1 s2 | S754_infinity s1, S754_infinity s2 => Bool.eqb s1 s2",
+                 "  | S754_nan, S754_nan => true",
+                 "  | S754_finite s1 m1 e1, S754_finite s2 m2 e2 => Bool.eqb s1 s2 && Pos.eqb m1 m2 && Z.eqb e1 e2",
+                 "  | _, _ => false end.",
+                 "Fixpoint chk (ss : list rto_state) (ex : list (float * float * float)) : bool :=",
+                 "  match ss, ex with [], [] => true",
+                 "  | s :: ss', (a, b, c) :: ex' => match srtt s with Some x => feq x a | None => false end && feq (rttvar s) b && feq (rto s) c && chk ss' ex'",
+                 "  | _, _ => false end."]
+        steps = 0
+        impl = []
+        for c in cases:
+            out = run_rto(c)
+            impl.append(out)
+            steps += len(c["rs"])
+            rs = "; ".join(_coq_float(h) for h in c["rs"])
+            ex = "; ".join("(%s, %s, %s)" % tuple(_coq_float(h) for h in t) for t in out[1:])
+            lines.append(f"Eval vm_compute in (feq (rto rto_init) {_coq_float(out[0][0])} && chk (rto_run rto_init [{rs}]) [{ex}]).")
+        os.makedirs(F.WORK, exist_ok=True)
+        path = os.path.join(F.WORK, "genval_c02_rto.v")
+        with open(path, "w") as fp:
+            fp.write("\n".join(lines) + "\n")
+        rc, out = F.sh(f"timeout 900 coqc -Q {F.COQ} AV -w -notation-overridden,-deprecated,-inexact-float {path}", cwd=F.WORK)
+        vals = [l.strip() for l in out.splitlines() if l.strip().startswith("= ")]
+        bad = [i for i, v in enumerate(vals) if not v.startswith("= true")]
+        ok = rc == 0 and len(vals) == len(cases) and not bad
+        self.rto_validation = {"histories": len(cases), "measurements": steps, "first_disagreement": None}
+        desc = f"Model/Rto.v equals _update_rto bit for bit on {len(cases)} measurement histories ({steps} measurements)"
+        if bad:
+            self.rto_validation["first_disagreement"] = {"case": cases[bad[0]], "implementation": impl[bad[0]]}
+            desc += f"; first disagreement: measurements {cases[bad[0]]['rs']} -> implementation {impl[bad[0]]}"
+        elif not ok:
+            desc += f"; coqc rc={rc}, {len(vals)} results: {out[-300:]}"
+        return [(desc, ok)]
+
     def gen_case(self, rng, i):
+        r0 = rng.random()
+        if r0 < 0.04:
+            return gen_rto_case(rng)
         if rng.random() < 0.15:
             return SC.gen_scenario(rng, reliable_only=(rng.random() < 0.5), big=(rng.random() < 0.3))
         return gen_tx_case(rng)
@@ -108,12 +207,16 @@ class C02(Check):
         return [case["tsn"], case["rwnd"], [i[:2] if i[0] == 0 else i for i in case["ins"]]]
 
     def describe_case(self, case):
+        if case["k"] == 2:
+            return {"k": 2, "measurements": [float.fromhex(r) for r in case["rs"]]}
         if case["k"] == 0:
             return {"k": 0, "tsn": case["tsn"], "rwnd": case["rwnd"],
                     "ins": [["msg"] + i[2] if i[0] == 0 else i for i in case["ins"][:30]]}
         return {"k": 1, "tsn": case["tsn"], "ops": case["ops"][:40]}
 
     def impl_run(self, case):
+        if case["k"] == 2:
+            return run_rto(case)
         if case["k"] == 1:
             return SC.run_scenario(case)
         return M.run(self._tx(case))
@@ -186,6 +289,13 @@ class C02(Check):
 
     # ------------------------------------------------------------ oracle
     def oracle(self, case, out):
+        if case["k"] == 2:
+            for step, o in enumerate(out):
+                rto = float.fromhex(o[-1])
+                if not 1.0 <= rto <= 60.0:
+                    return ("rto-out-of-range", f"after {step} measurements {[float.fromhex(r) for r in case['rs'][:step]]} every "
+                                                f"SCTP timer would be armed with a delay of {rto} s (outside [1, 60])")
+            return None
         if case["k"] == 0:
             # the no-deadlock invariants, read off the real object after every input
             pending = False
@@ -208,6 +318,8 @@ class C02(Check):
         return scenario_oracle_drains(out)
 
     def nontrivial(self, case, out):
+        if case["k"] == 2:
+            return any(1.0 < float.fromhex(o[-1]) < 60.0 for o in out[1:])
         if case["k"] == 0:
             return any(any(e[0] == 0 and e[2] > 1 for e in evs) or st[3] for evs, st in out)
         return out["datagrams"][0] > 8 and any(e[1] == "message" for e in out["events"])
@@ -215,8 +327,11 @@ class C02(Check):
     def distribution(self, cases, outs):
         d = {"tx": 0, "scenario": 0, "inputs": 0, "msgs": 0, "sacks": 0, "t3": 0, "retransmissions": 0,
              "fast_recovery": 0, "fwd_tsn": 0, "healed_rounds_max": 0}
+        d["rto_model_validation"] = getattr(self, "rto_validation", None)
         for c, o in zip(cases, outs):
-            if c["k"] == 0:
+            if c["k"] == 2:
+                d["rto"] = d.get("rto", 0) + 1
+            elif c["k"] == 0:
                 d["tx"] += 1
                 d["inputs"] += len(c["ins"])
                 d["msgs"] += sum(1 for i in c["ins"] if i[0] == 0)
@@ -232,7 +347,7 @@ class C02(Check):
         return d
 
     def shrink_candidates(self, case):
-        key = "ins" if case["k"] == 0 else "ops"
+        key = {0: "ins", 2: "rs"}.get(case["k"], "ops")
         l = case[key]
         if case["k"] == 0:
             return   # inputs carry TSNs; dropping one invalidates the rest
